@@ -39,6 +39,57 @@ theorem block_and_unknown_fail (src : NodeSpec) (umask : Nat) (nc ex rm : Bool)
     (hk : src.kind = .blk ∨ src.kind = .other) : specialProgram src umask nc ex rm = ([], none) := by
   rcases hk with hk | hk <;> simp [specialProgram, hk, classifyKind]
 
+/-- Full characterisation of success for one special-file entry. -/
+theorem succeeds_iff (src : NodeSpec) (umask : Nat) (nc ex rm : Bool) :
+    (specialProgram src umask nc ex rm).2.isSome = true ↔
+      classifyKind src.kind = .special ∧ (ex = false ∨ (nc = false ∧ rm = true)) := by
+  unfold specialProgram
+  cases hk : classifyKind src.kind <;> cases ex <;> cases nc <;> cases rm <;> simp
+
+/-- A fresh destination: one probe, one `mknod`, no `unlink`. -/
+theorem fresh_destination_created (src : NodeSpec) (umask : Nat) (nc rm : Bool)
+    (hk : classifyKind src.kind = .special) :
+    specialProgram src umask nc false rm =
+      ([.probeDest, .mknod (mknodResult src umask)], some (mknodResult src umask)) := by
+  simp [specialProgram, hk]
+
+/-- An existing destination that cannot be unlinked (a directory): the run fails and no node is created. -/
+theorem unremovable_destination_fails (src : NodeSpec) (umask : Nat)
+    (hk : classifyKind src.kind = .special) :
+    specialProgram src umask false true false = ([.probeDest, .unlink], none) := by
+  simp [specialProgram, hk]
+
+/-- A `mknod` is issued exactly on the successful paths, with exactly the node reported, and `unlink` is
+never issued under no-clobber or for a fresh destination. -/
+theorem mknod_iff_success (src : NodeSpec) (umask : Nat) (nc ex rm : Bool) (n : NodeSpec) :
+    (NodeCall.mknod n ∈ (specialProgram src umask nc ex rm).1 ↔ (specialProgram src umask nc ex rm).2 = some n) ∧
+    ((nc = true ∨ ex = false) → NodeCall.unlink ∉ (specialProgram src umask nc ex rm).1) := by
+  unfold specialProgram
+  cases hk : classifyKind src.kind <;> cases ex <;> cases nc <;> cases rm <;> simp [eq_comm]
+
+/-- Every bit of the file-creation mask is cleared in the created node's mode … -/
+theorem umask_bits_cleared (src : NodeSpec) (umask : Nat) :
+    (mknodResult src umask).mode &&& (umask &&& 0o7777) = 0 := by
+  apply Nat.eq_of_testBit_eq
+  intro i
+  simp only [mknodResult, Nat.testBit_and, Nat.testBit_xor, Nat.zero_testBit]
+  cases src.mode.testBit i <;> cases umask.testBit i <;> cases (0o7777 : Nat).testBit i <;> rfl
+
+/-- … and no bit is set that the source does not have. -/
+theorem mode_bits_from_source (src : NodeSpec) (umask : Nat) :
+    (mknodResult src umask).mode &&& src.mode = (mknodResult src umask).mode := by
+  apply Nat.eq_of_testBit_eq
+  intro i
+  simp only [mknodResult, Nat.testBit_and]
+  cases src.mode.testBit i <;> simp
+
+/-- With an empty mask a 12-bit mode is copied exactly. -/
+theorem umask_zero_exact (src : NodeSpec) (h : src.mode < 4096) : (mknodResult src 0).mode = src.mode := by
+  simp only [mknodResult, Nat.zero_and, Nat.xor_zero]
+  have : (0o7777 : Nat) = 2^12 - 1 := by decide
+  rw [this, Nat.and_two_pow_sub_one_eq_mod]
+  exact Nat.mod_eq_of_lt h
+
 /-- With umask 0 the permission bits are copied exactly; with 022 group/other write are dropped. -/
 example : (mknodResult ⟨.chr, 0o666, 259⟩ 0).mode = 0o666 ∧ (mknodResult ⟨.chr, 0o666, 259⟩ 0o022).mode = 0o644 ∧
     (mknodResult ⟨.chr, 0o666, 259⟩ 0o022).rdev = 259 := by decide
